@@ -35,7 +35,9 @@ Fixpoint olookup (t : otable) (tag : nat) (x : Q) : Q :=
   | (g, a, v) :: r => if Nat.eqb g tag && Qeq_bool a x then v else olookup r tag x
   end.
 Definition QOps (t : otable) : Ops Q := {|
-  o_add := Qplus; o_sub := Qminus; o_mul := Qmult; o_div := Qdiv; o_neg := Qopp; o_abs := Qabs;
+  (* results are reduced to lowest terms after every operation: without it the unreduced numerators of a deep DAG explode *)
+  o_add := fun x y => Qred (Qplus x y); o_sub := fun x y => Qred (Qminus x y); o_mul := fun x y => Qred (Qmult x y);
+  o_div := fun x y => Qred (Qdiv x y); o_neg := Qopp; o_abs := Qabs;
   o_const := fun n d => (n # d)%Q;
   o_sqrt := olookup t 0; o_cos := olookup t 1; o_sin := olookup t 2; o_acos := olookup t 3;
   o_rad := olookup t 4; o_deg := olookup t 5; o_floor := fun x => inject_Z (Qfloor x);
